@@ -235,7 +235,7 @@ func parseRaceLog(text string) (goat []raceReport, other int) {
 }
 
 func raceSweep(bin, prop, tier string, seed uint64, workers int, known knownSet, ev *Evidence) (int, error) {
-	if prop != "C08" {
+	if prop != "C08" && prop != "C17" {
 		return 0, nil
 	}
 	budget := 25 * time.Second
@@ -243,6 +243,13 @@ func raceSweep(bin, prop, tier string, seed uint64, workers int, known knownSet,
 	if tier == "thorough" {
 		budget = 6 * time.Minute
 		nw = workers
+	}
+	if prop == "C17" {
+		// concurrent address queries (probe.queries) on the race build
+		budget, nw = 15*time.Second, 6
+		if tier == "thorough" {
+			budget, nw = 3*time.Minute, workers
+		}
 	}
 	dir, err := os.MkdirTemp(filepath.Join(verifDir, "replays"), "race-")
 	if err != nil {
@@ -291,7 +298,7 @@ func raceSweep(bin, prop, tier string, seed uint64, workers int, known knownSet,
 		ev.Coverage.Race["heights"] += r.Heights
 		ev.Coverage.Race["reports_elsewhere"] += r.RaceOther
 		for _, v := range r.Violations {
-			if v.Property == "C08" && v.Oracle == "data-race" {
+			if v.Property == prop && v.Oracle == "data-race" {
 				ev.Coverage.Race["reports_in_goat_code"]++
 				if seen[v.Shape] == "" || r.PlanFile != "" {
 					seen[v.Shape] = r.PlanFile + "\x00" + v.Detail
@@ -302,14 +309,14 @@ func raceSweep(bin, prop, tier string, seed uint64, workers int, known knownSet,
 	n := 0
 	for shape, v := range seen {
 		parts := strings.SplitN(v, "\x00", 2)
-		viol := &Violation{Property: "C08", Oracle: "data-race", Shape: shape}
+		viol := &Violation{Property: prop, Oracle: "data-race", Shape: shape}
 		if k := known.matches(viol); k != nil {
 			fmt.Printf("KNOWN-FINDING: property=%s %s/%s: %s\n", k.Property, k.Oracle, k.Shape, k.Description)
 			continue
 		}
 		n++
 		fmt.Printf("violation: data-race/%s\n%s\n", shape, parts[1])
-		fmt.Printf("VIOLATION property=C08 replay=%s\n", parts[0])
+		fmt.Printf("VIOLATION property=%s replay=%s\n", prop, parts[0])
 	}
 	return n, nil
 }
